@@ -3,7 +3,24 @@ deterministic scenarios through harness/ctl.py, oracles in harness/m1.py."""
 
 from .. import m1
 
-REQUIRED_THEOREMS = []
+REQUIRED_THEOREMS = [
+    "C04.error_surfaces",
+    "C04.overlapping_call_raises",
+    "C04.failing_batch_aborts",
+    "C04.aborting_is_monotone",
+    "C04.ret_means_no_exception",
+    "C04.iterator_error_is_raised",
+    "C04.timeout_raises",
+    "C04.call_terminates",
+    "C04.clean_after_call",
+    "C04.clean_after_close",
+    "C04.clean_after_exhaustion",
+    "C04.stale_callbacks_are_noops",
+    "C04.next_call_is_fresh",
+    "C04.second_call_correct",
+    "C04.second_call_correct_unordered",
+    "C04.clean_after_exhaustion_unordered",
+]
 TRUSTED_EXTRA = [
     "M1 granularity: completion callbacks are atomic and happen at hook points of the caller (configure, compute_batch_size, sleep, consumer "
     "pauses); interleavings inside a callback or between two bytecodes of the caller are not in the model",
